@@ -33,6 +33,7 @@ type oidcWorld struct {
 	invalid []string
 	order   []string
 	key     *rsa.PrivateKey
+	other   *rsa.PrivateKey
 }
 
 func b64(b []byte) string { return base64.RawURLEncoding.EncodeToString(b) }
@@ -65,6 +66,7 @@ func newOidcWorld(addr string) (*oidcWorld, error) {
 		return nil, err
 	}
 	w.key = key
+	w.other = other
 	mux := http.NewServeMux()
 	mux.HandleFunc("/.well-known/openid-configuration", func(rw http.ResponseWriter, r *http.Request) {
 		rw.Header().Set("Content-Type", "application/json")
@@ -153,4 +155,13 @@ func (w *oidcWorld) coqDefs() string {
 // mint signs a fresh token for sub that expires at exp (unix seconds) with the issuer's current key.
 func (w *oidcWorld) mint(sub string, exp int64) string {
 	return signJWT(w.key, "k1", map[string]any{"iss": w.issuer, "sub": sub, "aud": "frps", "exp": exp, "iat": time.Now().Unix(), "jti": fmt.Sprint(time.Now().UnixNano())})
+}
+
+// mintClaims signs a token with arbitrary claims; foreign = signed by a key that is not in the issuer's JWKS.
+func (w *oidcWorld) mintClaims(sub string, exp int64, iss, aud string, foreign bool) string {
+	k := w.key
+	if foreign {
+		k = w.other
+	}
+	return signJWT(k, "k1", map[string]any{"iss": iss, "sub": sub, "aud": aud, "exp": exp, "iat": time.Now().Unix() - 7200})
 }
